@@ -6,7 +6,7 @@ from __future__ import annotations
 import connlts
 from common import Check
 
-KEYS = ("st", "conn", "hs", "start", "finish")
+KEYS = ("st", "conn", "hs", "start", "finish", "refused")
 PID = "C05"
 
 
@@ -50,4 +50,4 @@ def run(ck: Check, spec=None, keys=KEYS, what="connection LTS != implementation 
 
 
 def default_spec(obs, lines, info):
-    return connlts.spec_c05(obs)
+    return connlts.spec_c05(obs, info)
